@@ -57,7 +57,8 @@ type Unmarshallable interface {
 //
 // If you're unpacking into a list of strings, you have the option of defining
 // a string to split tokens on (`delim:", "`), and things to strip off each
-// element (`strip:"\n\r\t "`).
+// element (`strip:"\n\r\t "`). The default, `delim:" "`, splits on any run of
+// blanks and line breaks, so that a list of words may be folded.
 //
 // If you're unpacking into a struct, the struct will be walked according to
 // the rules above. If you wish to override how this writes to the nested
@@ -284,7 +285,18 @@ func decodeStructValueSlice(field reflect.Value, fieldType reflect.StructField, 
 
 	value = strings.Trim(value, strip)
 
-	for _, el := range strings.Split(value, delim) {
+	var elements []string
+	if delim == " " {
+		/* A list of words may be folded, and may have more than one blank
+		 * between two words: any run of blanks and line breaks separates. */
+		elements = strings.FieldsFunc(value, func(c rune) bool {
+			return strings.ContainsRune(" \t\r\n", c)
+		})
+	} else {
+		elements = strings.Split(value, delim)
+	}
+
+	for _, el := range elements {
 		el = strings.Trim(el, strip)
 
 		targetValue := reflect.New(underlyingType)
